@@ -51,7 +51,7 @@ def rand_spec(rng, text_curve=0.2, max_curves=6, max_rows=6, dup=True, custom=0.
     pool = names[:] if dup else rng.sample(names, len(names))
     for j in range(ncur):
         if rng.random() < text_curve and j == ncur - 1 and ncur > 1:
-            data = [rng.choice(["abc", "x-1", "Q", "lithA"]) for _ in range(nrows)]
+            data = [rng.choice(["abc", "x-1", "Q", "lithA", "alpha-beta", "sand-shale-lime"]) for _ in range(nrows)]
         else:
             data = [None if rng.random() < 0.15 else round(rng.uniform(-500, 3000), rng.choice([0, 2, 4])) for _ in range(nrows)]
         nm = rng.choice(pool) if dup else pool[j % len(pool)]
